@@ -127,6 +127,83 @@ fn dec(w: &[&str]) -> String {
     }
 }
 
+/// one Encoder call `name[:arg]` on any sink; `None` = malformed.
+fn apply<W: minicbor::encode::Write>(e: &mut Encoder<W>, call: &str) -> Option<Result<(), minicbor::encode::Error<W::Error>>> {
+    let (m, a) = match call.split_once(':') { Some((m, a)) => (m, a), None => (call, "") };
+    macro_rules! num { ($t:ty) => { a.parse::<$t>().ok()? } }
+    macro_rules! bits { ($t:ty) => { <$t>::from_str_radix(a, 16).ok()? } }
+    Some(match m {
+        "u8"  => e.u8(num!(u8)).map(|_| ()),
+        "u16" => e.u16(num!(u16)).map(|_| ()),
+        "u32" => e.u32(num!(u32)).map(|_| ()),
+        "u64" => e.u64(num!(u64)).map(|_| ()),
+        "i8"  => e.i8(num!(i8)).map(|_| ()),
+        "i16" => e.i16(num!(i16)).map(|_| ()),
+        "i32" => e.i32(num!(i32)).map(|_| ()),
+        "i64" => e.i64(num!(i64)).map(|_| ()),
+        "int" => e.int(Int::try_from(num!(i128)).ok()?).map(|_| ()),
+        "simple" => e.simple(num!(u8)).map(|_| ()),
+        "f32" => e.f32(f32::from_bits(bits!(u32))).map(|_| ()),
+        "f64" => e.f64(f64::from_bits(bits!(u64))).map(|_| ()),
+        "bool" => e.bool(a == "1").map(|_| ()),
+        "char" => e.char(char::from_u32(num!(u32))?).map(|_| ()),
+        "tag" => e.tag(Tag::new(num!(u64))).map(|_| ()),
+        "bytes" => e.bytes(&unhex(a)?).map(|_| ()),
+        "str" => e.str(&String::from_utf8(unhex(a)?).ok()?).map(|_| ()),
+        "array" => e.array(num!(u64)).map(|_| ()),
+        "map" => e.map(num!(u64)).map(|_| ()),
+        "null" => e.null().map(|_| ()),
+        "undefined" => e.undefined().map(|_| ()),
+        "begin_array" => e.begin_array().map(|_| ()),
+        "begin_bytes" => e.begin_bytes().map(|_| ()),
+        "begin_map" => e.begin_map().map(|_| ()),
+        "begin_str" => e.begin_str().map(|_| ()),
+        "end" => e.end().map(|_| ()),
+        _ => return None
+    })
+}
+
+/// `encseq <kind> <cap> <call>…`: the calls on ONE encoder over a bounded sink of `cap` bytes (filled with ee),
+/// carrying on after a failed call.  kinds: `slice` (`&mut [u8]`), `cslice` (`Cursor<&mut [u8]>`),
+/// `carr` (`Cursor<[u8; 12]>`, cap must be 12).
+/// Output: `<r1>,<r2>,… pos=<bytes accepted> buf=<hex of the whole sink>`, r = `ok` | `write` | `other`.
+fn encseq(w: &[&str]) -> String {
+    if w.len() < 2 { return "bad-op".into() }
+    let cap = match w[1].parse::<usize>() { Ok(c) if c <= 4096 => c, _ => return "bad-op".into() };
+    fn drive<W: minicbor::encode::Write>(e: &mut Encoder<W>, calls: &[&str]) -> Option<String> {
+        let mut rs = Vec::new();
+        for c in calls {
+            rs.push(match apply(e, c)? { Ok(()) => "ok", Err(x) => if x.is_write() { "write" } else { "other" } });
+        }
+        Some(if rs.is_empty() { "-".into() } else { rs.join(",") })
+    }
+    let mut buf = vec![0xEEu8; cap];
+    let (rs, pos) = match w[0] {
+        "slice" => {
+            let mut e = Encoder::new(&mut buf[..]);
+            let rs = drive(&mut e, &w[2..]);
+            let room = e.into_writer().len();
+            (rs, cap - room)
+        }
+        "cslice" => {
+            let mut e = Encoder::new(Cursor::new(&mut buf[..]));
+            let rs = drive(&mut e, &w[2..]);
+            let p = e.writer().position();
+            (rs, p)
+        }
+        "carr" => {
+            if cap != 12 { return "bad-op".into() }
+            let mut e = Encoder::new(Cursor::new([0xEEu8; 12]));
+            let rs = drive(&mut e, &w[2..]);
+            let p = e.writer().position();
+            buf.copy_from_slice(&e.writer().get_ref()[..]);
+            (rs, p)
+        }
+        _ => return "bad-op".into()
+    };
+    match rs { Some(rs) => format!("{} pos={} buf={}", rs, pos, hex(&buf)), None => "bad-op".into() }
+}
+
 fn enc(w: &[&str]) -> String {
     let mut e = Encoder::new(Cursor::new([0u8; 96]));
     let a = w.get(1).copied().unwrap_or("");
@@ -242,6 +319,7 @@ fn dispatch(w: &[&str]) -> String {
         "sde" => sde(&w[1..]),
         "sser" => sser(&w[1..]),
         "enc" => enc(&w[1..]),
+        "encseq" => encseq(&w[1..]),
         "dec" => dec(&w[1..]),
         _ => "bad-op".into()
     }
